@@ -182,7 +182,22 @@ def opSessStep (st : DState) (j : Json) : DState × Json :=
       | .failed e => resJ (fun (_ : Unit) => Json.null) (.error e)
     ({ st with ssys := s' }, rj)
 
+/-- a whole history from a fresh system (replay glue of stream `sess`): the replies of every step
+    (`null` for steps marked `"skipModel": true`, which the model has no step for) and the final
+    committed dump. -/
+def opSessHistory (st : DState) (j : Json) : DState × Json :=
+  let steps : List Json := match j.getObjVal? "steps" with
+    | .ok (.arr xs) => xs.toList
+    | _ => []
+  let (st', replies) := steps.foldl (fun (acc : DState × List Json) sj =>
+    if optBool sj "skipModel" then (acc.1, acc.2 ++ [Json.null])
+    else
+      let (s', r) := opSessStep acc.1 sj
+      (s', acc.2 ++ [r])) ({ st with ssys := SSys.init }, [])
+  (st', okJ (Json.mkObj [("replies", Json.arr replies.toArray), ("dump", dumpJ st'.ssys.sys)]))
+
 def statefulOps : List (String × (DState → Json → DState × Json)) := [
+  ("sess.history", opSessHistory),
   ("api.reset", fun _ _ => ({}, okJ Json.null)),
   ("api.call", opApiCall),
   ("api.dump", fun st _ => (st, okJ (dumpJ st.sys))),
